@@ -12,6 +12,8 @@ EXPLANATION = ('All functions of physical-plan/src/spill/spill_pool.rs are path-
                'in files), every exit incl. error exits either re-queues it or marks it writer_finished and wakes its reader; (5) '
                'progress publication — batches_written is bumped only after append_batch and flush and is followed by a wake. '
                'Exactly-once delivery and FIFO order of values are not decided.')
+# path rules cut loops after a bounded number of iterations: complete over rule instances, not over all unrollings
+EXHAUSTIVE = False
 ASSUMPTIONS = ['loops are unrolled twice', 'the waker stored by register_waker is the one woken by wake() (field identity is checked by name)']
 
 SP = 'datafusion_physical_plan::spill::spill_pool::'
